@@ -75,9 +75,17 @@ ASSUMPTIONS = ['with a discount rate, a coarse interval is discounted with the f
                'bounds of merged periodic variables are the group mean (pinned by test_periodic_contract_max_capa)']
 
 
+LONG = [
+    # beyond toy sizes: two-digit numbers of durations and of positions within the period (12 durations of two 11-hour periods). Decided
+    # structurally: which fine variables one merged variable stands for (C07's periodic mapping obligation against the non-periodic set-up)
+    ('periodic_long_12_durations_of_2x11h', dict(opt='c07periodic', kind='contract', T=264, period='11h', duration='22h')),
+    ('periodic_long_transport_11_durations_of_2x10h', dict(opt='c07periodic', kind='transport', T=220, period='10h', duration='20h', eff=0.5)),
+]
+
+
 def cases(tier, seed):
     lst = THOROUGH if tier == 'thorough' else QUICK
-    return [(cid, dict(kw)) for cid, kw in lst]
+    return [(cid, dict(kw)) for cid, kw in lst] + [(cid, dict(kw)) for cid, kw in LONG]
 
 
 # ------------------------------------------------------------------------------------------------ builders
@@ -218,7 +226,16 @@ def maps(Po, Pf, groups, dt, opt):
 
 
 # ------------------------------------------------------------------------------------------------ run
+def _c07kw(kind, T, kw):
+    return dict(shape='-', kw=dict(kw, kind=kind, T=T), split=None, level='periodic')
+
+
 def run_case(case_id, tier, seed, opt, kind, T, **kw):
+    if opt == 'c07periodic':
+        from . import c07
+        res = c07.run_case(case_id, tier, seed, **_c07kw(kind, T, kw))
+        res['prop'] = PROP
+        return res
     rec = lpsem.Rec(PROP, case_id)
     eao = lift.import_eao()
     coarse = kw.get('coarse', '2h'); period = kw.get('period', '2h'); duration = kw.get('duration')
@@ -321,6 +338,10 @@ def run_case(case_id, tier, seed, opt, kind, T, **kw):
 # ------------------------------------------------------------------------------------------------ pristine
 def observe(case, kwargs, env, rq):
     from .. import obs
+    if kwargs.get('opt') == 'c07periodic':
+        from . import c07
+        kw_ = dict(kwargs); kw_.pop('opt')
+        return c07.observe(case, _c07kw(kw_.pop('kind'), kw_.pop('T'), kw_), env, rq)
     eao = lift.import_eao()
     D = lift.Domain(theta=env)
     kw = dict(kwargs)
@@ -400,6 +421,10 @@ def observe(case, kwargs, env, rq):
 
 def judge(case, kwargs, cand, ans):
     info = cand.get('info', {})
+    if kwargs.get('opt') == 'c07periodic':
+        from . import c07
+        kw_ = dict(kwargs); kw_.pop('opt')
+        return c07.judge(case, _c07kw(kw_.pop('kind'), kw_.pop('T'), kw_), cand, ans)
     if cand.get('form') == 'crash' or 'crash' in info:
         return (True, 'raises on an in-domain input: ' + ans['error'][:200]) if 'error' in ans else (False, 'no exception')
     if 'error' in ans:
